@@ -111,10 +111,20 @@ func (m *Model) carriers(tag string) []string {
 		p int
 	}
 	var es []e
+	for n, ov := range m.ovSvc {
+		for _, t := range ov.Tags {
+			if t == tag {
+				es = append(es, e{n, 0})
+			}
+		}
+	}
 	for i := range m.Cfg.Services {
 		s := &m.Cfg.Services[i]
 		if s.Todo != nil && *s.Todo {
 			continue // a todo service has no attributes at run time
+		}
+		if _, ov := m.ovSvc[s.Name]; ov {
+			continue // replaced at run time: the tags of the replacement count
 		}
 		for _, t := range s.Tags {
 			if t.Name == tag {
@@ -431,6 +441,9 @@ func (m *Model) callFn(chunk, name, argText string) (any, error) {
 			if !ok {
 				return nil, &MUnspec{"todo message type"}
 			}
+			if !strings.Contains(s, "parameter todo") {
+				return nil, fail(s, NotContains+"parameter todo") // the given message, not the default one
+			}
 			return nil, fail(s)
 		}
 		return nil, fail("parameter todo")
@@ -624,14 +637,7 @@ func (m *Model) GetTaggedByInContext(ctx, tag string) (any, error) {
 }
 
 func (m *Model) tagged(tag string, bag map[string]any) (any, error) {
-	names := m.carriers(tag)
-	// overriding services carry no tags in this model's override vocabulary
-	var live []string
-	for _, n := range names {
-		if _, ov := m.ovSvc[n]; !ov {
-			live = append(live, n)
-		}
-	}
+	live := m.carriers(tag)
 	res := make([]any, 0, len(live))
 	for _, n := range live {
 		v, err := m.get(n, bag)
@@ -659,6 +665,14 @@ func (m *Model) get(name string, bag map[string]any) (any, error) {
 			return v, nil
 		}
 		v, err := m.buildOverride(ov, bag)
+		if err != nil {
+			return nil, wrapErr(err)
+		}
+		var tags []Tag
+		for _, t := range ov.Tags {
+			tags = append(tags, Tag{Name: t})
+		}
+		v, err = m.decorate(v, name, tags, bag)
 		if err != nil {
 			return nil, wrapErr(err)
 		}
@@ -996,10 +1010,14 @@ func (m *Model) build(s *Service, bag map[string]any) (any, error) {
 	if len(errs) > 0 {
 		return nil, joinErrs(errs)
 	}
-	// decorators, in declaration order
+	return m.decorate(cur, s.Name, s.Tags, bag)
+}
+
+// decorate applies the decorators of the carried tags, in declaration order.
+func (m *Model) decorate(cur any, svcName string, tags []Tag, bag map[string]any) (any, error) {
 	for di, d := range m.Cfg.Decorators {
 		carried := false
-		for _, t := range s.Tags {
+		for _, t := range tags {
 			if t.Name == d.Tag {
 				carried = true
 			}
@@ -1026,7 +1044,7 @@ func (m *Model) build(s *Service, bag map[string]any) (any, error) {
 			return nil, &MUnspec{"decorator " + r.Name + " not modelled"}
 		}
 		m.count(id + "." + r.Name)
-		cur = &MWrap{ID: m.fresh(), Fn: id + "." + r.Name, Tag: d.Tag, SID: s.Name, Args: args, Inner: cur}
+		cur = &MWrap{ID: m.fresh(), Fn: id + "." + r.Name, Tag: d.Tag, SID: svcName, Args: args, Inner: cur}
 	}
 	return cur, nil
 }
